@@ -61,8 +61,10 @@ class InstanceGenerator(abc.ABC):
             num_jobs = (num_jobs, num_jobs)
         if isinstance(num_machines, int):
             num_machines = (num_machines, num_machines)
-        if seed is not None:
-            random.seed(seed)
+        # A seeded generator draws from its own random number generator so
+        # that its sequence depends only on its seed, not on other users of
+        # the global ``random`` module (including other generators).
+        self.rng = random if seed is None else random.Random(seed)
 
         self.num_jobs_range = num_jobs
         self.num_machines_range = num_machines
